@@ -616,6 +616,25 @@ fn check_release_parity(env: &Env, tid: Tid, t0: usize, expect: &[(Lid, bool)], 
 	}
 }
 
+/// after a user panic was caught: releases that the audit refused during the
+/// unwinding count against "released exactly once" (C11)
+fn illegal_releases_after_panic(env: &Env, tid: Tid, n0: usize, what: &str) {
+	let notices = env.exec.notices();
+	for n in &notices[n0.min(notices.len())..] {
+		if let Notice::IllegalRelease { tid: t, lid, op, kind, during_fault: false, .. } = n {
+			if *t == tid {
+				env.finding(
+					"C11",
+					tid,
+					format!("illegal-release-after-panic|{kind:?}|{what}"),
+					format!("while unwinding a user panic out of {what} the library issued {} on L{lid}, which the thread does not hold that way ({kind:?}): not released exactly once", op.short()),
+				);
+				return;
+			}
+		}
+	}
+}
+
 fn illegal_release_findings(env: &Env, n0: usize) {
 	let notices = env.exec.notices();
 	for n in &notices[n0.min(notices.len())..] {
@@ -632,6 +651,22 @@ fn illegal_release_findings(env: &Env, n0: usize) {
 				format!("thread {tid} issued {} on L{lid} which it does not hold that way ({kind:?})", op.short()),
 			);
 		}
+	}
+}
+
+/// a fmt sink that fails after a number of bytes
+struct BoundedSink {
+	left: usize,
+}
+
+impl std::fmt::Write for BoundedSink {
+	fn write_str(&mut self, s: &str) -> std::fmt::Result {
+		if s.len() > self.left {
+			self.left = 0;
+			return Err(std::fmt::Error);
+		}
+		self.left -= s.len();
+		Ok(())
 	}
 }
 
@@ -779,10 +814,20 @@ pub fn run_step(env: &Env, ctx: &mut ThreadCtx, idx: usize, step: &Step) -> Step
 			}
 			None => executed = false,
 		},
-		Step::Debug { target } => match target_of(env, *target) {
-			Some(t) => non_acquiring(env, tid, &format!("debug {}", kind_name(env, *target)), || {
-				let _ = t.debug_fmt();
-			}),
+		Step::Debug { target, cap, payload } => match target_of(env, *target) {
+			Some(t) => {
+				crate::types::P_DEBUG_MODE.with(|m| m.set(*payload));
+				non_acquiring(env, tid, &format!("debug {}", kind_name(env, *target)), || {
+					let mut sink = BoundedSink { left: cap.map(|n| n as usize).unwrap_or(usize::MAX) };
+					if t.debug_fmt_to(&mut sink).is_err() {
+						env.label("debug_abandoned_part_way");
+					}
+				});
+				crate::types::P_DEBUG_MODE.with(|m| m.set(0));
+				if *payload == 2 {
+					env.label("debug_payload_panics");
+				}
+			}
 			None => executed = false,
 		},
 		Step::Accessors { target } => match target_of(env, *target) {
@@ -1072,6 +1117,7 @@ fn step_guard_ops(env: &Env, ctx: &mut ThreadCtx, ops: &[BodyOp]) -> bool {
 	let target = h.target;
 	let read = h.read;
 	let t0 = env.exec.trace_len();
+	let n0g = env.exec.notices().len();
 	let expect: Vec<(Lid, bool)> = flat.pos.iter().map(|p| (p.leaf, read)).collect();
 	env.exec.begin_call(tid, CallKind::Release, "panic with guard alive");
 	let r = catch_unwind(AssertUnwindSafe(move || {
@@ -1104,6 +1150,7 @@ fn step_guard_ops(env: &Env, ctx: &mut ThreadCtx, ops: &[BodyOp]) -> bool {
 					);
 				}
 				check_release_parity(env, tid, t0, &expect, &format!("unwinding guard of {}", kind_name(env, target)), "C11");
+				illegal_releases_after_panic(env, tid, n0g, &format!("guard of {}", kind_name(env, target)));
 				// the key was inside the guard: it must be obtainable again
 				match ThreadKey::get() {
 					Some(k) => ctx.key = Some(k),
@@ -1412,6 +1459,7 @@ fn step_scoped(
 					);
 				}
 				check_release_parity(env, tid, t0, &[], &format!("unwinding {what}"), "C11");
+				illegal_releases_after_panic(env, tid, n0, &what);
 				if owned_key {
 					match ThreadKey::get() {
 						Some(k) => ctx.key = Some(k),
@@ -1520,7 +1568,9 @@ fn step_probe_faulted(env: &Env, ctx: &mut ThreadCtx, fallback: TargetRef) -> bo
 	}
 	for (t, lid) in targets {
 		let Some(tg) = target_of(env, t) else { continue };
-		for blocking in [false, true] {
+		let sharable = env.sem.sharable(t);
+		let modes: &[(bool, bool)] = if sharable { &[(false, false), (false, true), (true, false), (true, true)] } else { &[(false, false), (false, true)] };
+		for (read, blocking) in modes.iter().copied() {
 			if env.exec.is_abort() {
 				return true;
 			}
@@ -1528,9 +1578,20 @@ fn step_probe_faulted(env: &Env, ctx: &mut ThreadCtx, fallback: TargetRef) -> bo
 				ctx.key = ThreadKey::get();
 			}
 			let Some(key) = ctx.key.take() else { return true };
-			let what = format!("probe:{}:{}", if blocking { "lock" } else { "try_lock" }, kind_name(env, t));
+			let api = match (read, blocking) {
+				(false, true) => "lock",
+				(false, false) => "try_lock",
+				(true, true) => "read",
+				(true, false) => "try_read",
+			};
+			let what = format!("probe:{api}:{}", kind_name(env, t));
 			env.exec.begin_call(tid, if blocking { CallKind::AcquireBlocking } else { CallKind::AcquireTry }, &what);
-			let r = catch_unwind(AssertUnwindSafe(|| if blocking { Ok(tg.lock(key)) } else { tg.try_lock(key) }));
+			let r = catch_unwind(AssertUnwindSafe(|| match (read, blocking) {
+				(false, true) => Ok(tg.lock(key)),
+				(false, false) => tg.try_lock(key),
+				(true, true) => Ok(tg.read(key)),
+				(true, false) => tg.try_read(key),
+			}));
 			env.exec.end_call(tid);
 			match r {
 				Ok(Ok(g)) => {
